@@ -246,7 +246,16 @@ theorem stale_after_crash_witness :
     (laterCalls [({ cfg1 with me := 2 }, 3), ({ cfg1 with me := 3 }, 4)]
       (crash 11 none (callProc { cfg1 with rank := rankW } 3) fsOld)).1 = [.ok ⟨1, 3⟩, .ok ⟨0, 4⟩] := by decide
 
-/-- the killed call's 11th system call is the unlink of `func_code.py` -/
+/-- the crash point of F36, exactly: among the killed call's first 11 system calls none creates `func_code.py` … -/
+example : ((runLog (callProc { cfg1 with rank := rankW } 3) fsOld).1.take 11).all
+    (fun x => match x.1 with | .creat p => p != pCode | _ => true) = true := by decide
+
+/-- … both old entries are still there … -/
+example : ((crash 11 none (callProc { cfg1 with rank := rankW } 3) fsOld).get (pOut 3)).isSome = true ∧
+    ((crash 11 none (callProc { cfg1 with rank := rankW } 3) fsOld).get (pOut 4)).isSome = true ∧
+    (crash 11 none (callProc { cfg1 with rank := rankW } 3) fsOld).get pCode = none := by decide
+
+/-- … and the 11th system call is the unlink of `func_code.py` -/
 example : (((runLog (callProc { cfg1 with rank := rankW } 3) fsOld).1.take 11).getLast?.map
     fun x => ((match x.1 with | .unlink p _ => p == pCode | _ => false), x.2)) = some (true, .ok) := by decide
 
